@@ -47,7 +47,9 @@ Print Assumptions C06_failed_noop_oci.
 Theorem C06_fetch_returns_pushed_memory : forall s d c h2 d',
   snd (mem_step s (Push d c)) = OOk -> gk d' = gk d ->
   let s2 := fst (run mem_step (fst (mem_step s (Push d c))) h2) in
-  snd (mem_step s2 (Fetch d')) = OBytes (b_hash c) (b_len c) /  b_hash c = d_dig d /\ b_len c = d_size d /  forall c', mem_step s2 (Push d' c') = (s2, OErr EAlreadyExists).
+  snd (mem_step s2 (Fetch d')) = OBytes (b_hash c) (b_len c) /\
+  b_hash c = d_dig d /\ b_len c = d_size d /\
+  forall c', mem_step s2 (Push d' c') = (s2, OErr EAlreadyExists).
 Proof. exact mem_fetch_returns_pushed. Qed.
 Print Assumptions C06_fetch_returns_pushed_memory.
 
@@ -62,7 +64,10 @@ Print Assumptions C06_resolve_latest_memory.
 Theorem C06_absent_notfound_memory : forall h k,
   (forall d c, In (Push d c) h -> gk d <> k) ->
   let s := fst (run mem_step mem_init h) in
-  get gkey_eqb k (m_cas s) = None /  forall d r, gk d = k -> snd (mem_step s (Fetch d)) = OErr ENotFound /                          snd (mem_step s (Tag d r)) = OErr ENotFound /                          snd (mem_step s (Exists d)) = OBool false.
+  get gkey_eqb k (m_cas s) = None /\
+  forall d r, gk d = k -> snd (mem_step s (Fetch d)) = OErr ENotFound /\
+                          snd (mem_step s (Tag d r)) = OErr ENotFound /\
+                          snd (mem_step s (Exists d)) = OBool false.
 Proof. exact mem_never_pushed_absent. Qed.
 Print Assumptions C06_absent_notfound_memory.
 
@@ -71,7 +76,9 @@ Theorem C06_fetch_returns_pushed_oci : forall s d c h2 d',
   snd (oci_step s (Push d c)) = OOk -> d_dig d' = d_dig d ->
   forallb (fun o => negb (deletes_dig (d_dig d) o)) h2 = true ->
   let s2 := fst (run oci_step (fst (oci_step s (Push d c))) h2) in
-  snd (oci_step s2 (Fetch d')) = OBytes (b_hash c) (b_len c) /  b_hash c = d_dig d /\ b_len c = d_size d /  forall c', oci_step s2 (Push d' c') = (s2, OErr EAlreadyExists).
+  snd (oci_step s2 (Fetch d')) = OBytes (b_hash c) (b_len c) /\
+  b_hash c = d_dig d /\ b_len c = d_size d /\
+  forall c', oci_step s2 (Push d' c') = (s2, OErr EAlreadyExists).
 Proof. exact oci_fetch_returns_pushed. Qed.
 Print Assumptions C06_fetch_returns_pushed_oci.
 
@@ -90,7 +97,9 @@ Theorem C06_delete_clears_oci : forall h1 d,
   let s := fst (run oci_step oci_init h1) in
   snd (oci_step s (Delete d)) = OOk ->
   let s' := fst (oci_step s (Delete d)) in
-  snd (oci_step s' (Fetch d)) = OErr ENotFound /  snd (oci_step s' (Exists d)) = OBool false /  forall n d', get ref_eqb (RName n) (r_index (o_res s)) = Some d' -> gk d' = gk d ->
+  snd (oci_step s' (Fetch d)) = OErr ENotFound /\
+  snd (oci_step s' (Exists d)) = OBool false /\
+  forall n d', get ref_eqb (RName n) (r_index (o_res s)) = Some d' -> gk d' = gk d ->
                snd (oci_step s' (Resolve (RName n))) = OErr ENotFound.
 Proof. exact oci_delete_clears. Qed.
 Print Assumptions C06_delete_clears_oci.
